@@ -148,6 +148,10 @@ func (p *FloatingIPPlugin) allocateIP(key string, nodeName string, pod *corev1.P
 		}
 	}
 	for _, ipInfo := range ipInfos {
+		if ipInfo == nil {
+			// released or dropped by a configuration reload since it was allocated above
+			return nil, fmt.Errorf("ip allocated to %s is gone, retry later", key)
+		}
 		glog.Infof("AssignIP nodeName %s, ip %s, key %s", nodeName, ipInfo.IPInfo.IP.IP.String(), key)
 		if err := p.cloudProviderAssignIP(&rpc.AssignIPRequest{
 			NodeName:  nodeName,
